@@ -19,6 +19,7 @@ MODULES = [
     "cobald.daemon.runners.base_runner", "cobald.daemon.runners.meta_runner", "cobald.daemon.runners.asyncio_runner",
     "cobald.daemon.runners.trio_runner", "cobald.daemon.runners.thread_runner", "cobald.daemon.runners.service",
     "cobald.daemon.runners.guard",
+    "_weakrefset",  # the service registry is a WeakSet: widen the windows inside its (pure Python) iteration as well
 ]
 
 
